@@ -50,6 +50,9 @@ NEWTOPS = ["znew", "zn", "znew2", "zy", "zpk", "znéw", "新", "ζ"]
 NEWSUBS = ["y", "yy", "n", "nw", "w", "y_", "ñ", "yé", "新子"]
 ALIASES = ["al", "alx", "loc", "lo", "h", "hh", "r1", "a", "alé", "别名", "λ"]
 VARS = ["v", "res", "tmp", "item"]
+# long NEW paths (25-80 characters): the renamed module no longer fits in front of a fixed alignment column
+LONGTOPS = ["zsome_long_package", "zanother_rather_long_root", "zlängeres_paket"]
+LONGSUBS = ["zsubpackage_with_long_name", "zmodule_number_two", "zyet_another_component", "zlong_子包_name"]
 
 
 def in_alphabet(s: str) -> bool:
@@ -57,14 +60,14 @@ def in_alphabet(s: str) -> bool:
     return all(ord(c) < 0x180 or 0x370 <= ord(c) <= 0x3FF or 0x4E00 <= ord(c) <= 0x9FFF for c in s)
 
 
-for _pool in (TOPS, SUBS, MEMBERS, NEWTOPS, NEWSUBS, ALIASES):
+for _pool in (TOPS, SUBS, MEMBERS, NEWTOPS, NEWSUBS, ALIASES, LONGTOPS, LONGSUBS):
     for _n in _pool:
         assert _n.isidentifier() and unicodedata.normalize("NFKC", _n) == _n and re.fullmatch(r"\w+", _n) \
             and in_alphabet(_n), _n
-assert not (set(NEWTOPS) | set(NEWSUBS)) & (set(TOPS) | set(SUBS) | set(MEMBERS) | set(ALIASES))
+assert not (set(NEWTOPS) | set(NEWSUBS) | set(LONGTOPS) | set(LONGSUBS)) & (set(TOPS) | set(SUBS) | set(MEMBERS) | set(ALIASES))
 
 PARAM_CHOICES = dict(
-    align_imports=[True, False, 24],
+    align_imports=[True, False, 24, 32, 40, [32], [16, 32], [8, 24, 40]],
     from_spaces=[1, 3],
     separate_from_imports=[True, False],
     max_line_length=[None, 79, 60, 120],
@@ -451,7 +454,11 @@ def gen_universe(rng):
 def fresh_new(rng, mods, taken):
     for _ in range(50):
         r = rng.random()
-        if r < 0.55:
+        if rng.random() < 0.14:
+            parts = [rng.choice(LONGTOPS)]
+            while len(".".join(parts)) < rng.choice([25, 30, 45, 70]) and len(parts) < 5:
+                parts.append(rng.choice(LONGSUBS))
+        elif r < 0.55:
             parts = [rng.choice(NEWTOPS)] + [rng.choice(NEWSUBS) for _ in range(rng.choice([0, 0, 1, 1, 2]))]
         elif r < 0.85:
             base = rng.choice(sorted(mods))
@@ -459,7 +466,7 @@ def fresh_new(rng, mods, taken):
         else:
             parts = [rng.choice(NEWTOPS), rng.choice(NEWSUBS + SUBS[:3])]
         n = ".".join(parts)
-        if n not in taken and not any(related(n, x) and x.split(".")[0] in NEWTOPS for x in taken):
+        if n not in taken and not any(related(n, x) and x.split(".")[0] in NEWTOPS + LONGTOPS for x in taken):
             return n
     return "zfresh%d" % len(taken)
 
@@ -471,7 +478,7 @@ def char_traps(path):
         par += "."
     else:
         par, last = "", path
-    out = [par + last + "x", par + last + "_", par + last + "2"]
+    out = [par + last + "x", par + last + "_", par + last + "2", par + last + "s"]
     if len(last) > 2:
         out.append(par + last[:-1])
     out.append("x" + path)                       # OLD is a character *suffix* of the first component
@@ -482,7 +489,60 @@ def char_traps(path):
     return out
 
 
+def gen_family_map(rng, mods, add):
+    """2-4 entries whose OLDs are related: by character prefix without a dot boundary (util / utils / util2 /
+    util_x), by true dotted nesting (a / a.b / a.b.c), or both; NEWs parallel (NEW_i = NEW_0 + OLD_i[len(OLD_0):],
+    e.g. util -> core.util, utils -> core.utils) or unrelated; in a random dict order."""
+    base = rng.choice(sorted(mods))
+    par = base.rsplit(".", 1)[0] + "." if "." in base else ""
+    last = base.rsplit(".", 1)[-1]
+    variants = [last + "s", last + "2", last + "_x", last + "x", last + "_"]
+    if len(last) > 2:
+        variants.append(last[:-1])
+    keys = [base] if rng.random() < 0.85 else []
+    kind = rng.random()
+    if kind < 0.75:
+        for v in rng.sample(variants, rng.randint(1, 3)):
+            keys.append(par + v)
+    if kind > 0.45:
+        # true nesting below / above
+        cur = base
+        for _ in range(rng.randint(1, 2)):
+            kids = [p for p in mods if p.startswith(cur + ".") and p.count(".") == cur.count(".") + 1]
+            cur = rng.choice(kids) if kids and rng.random() < 0.7 else cur + "." + rng.choice(SUBS)
+            keys.append(cur)
+        if par and rng.random() < 0.3:
+            keys.append(par[:-1])
+    keys = list(dict.fromkeys(keys))[:4]
+    if len(keys) < 2:
+        keys.append(par + variants[0])
+    for k in keys:
+        if rng.random() < 0.85 and not any(k == m + "." + x for m in mods for x in mods[m]):
+            add(k)
+    entries = []
+    taken = list(keys)
+    parallel = rng.random() < 0.6
+    k0 = min(keys, key=len)
+    v0 = fresh_new(rng, mods, taken)
+    if rng.random() < 0.5:
+        v0 = v0 + "." + k0.rsplit(".", 1)[-1]          # core.util for util
+    taken.append(v0)
+    for k in keys:
+        if k == k0:
+            v = v0
+        elif parallel and k.startswith(k0) and rng.random() < 0.9:
+            v = v0 + k[len(k0):]
+        else:
+            v = fresh_new(rng, mods, taken)
+        taken.append(v)
+        entries.append([k, v])
+    rng.shuffle(entries)
+    return entries
+
+
 def gen_map(rng, mods, add):
+    if rng.random() < 0.2:
+        return gen_family_map(rng, mods, add)
     entries = []
     n = rng.choice([1, 1, 1, 2, 2, 3])
     paths = sorted(mods)
@@ -549,6 +609,7 @@ def gen_program(rng, mods, entries, nested_imports=False):
         o in c or c in o or c.lower().startswith(o.lower()) or o.replace(".", "_") in c for o in olds)]
     imports = []      # (target, form, local)
     singles, plains_first = set(), set()
+    star_done = []
     for _ in range(rng.randint(1, 6)):
         r = rng.random()
         if und and r < 0.55:
@@ -564,6 +625,17 @@ def gen_program(rng, mods, entries, nested_imports=False):
         if "." in tgt:
             forms += ["from", "from", "fromas"]
         form = rng.choice(forms)
+        if ismod and not star_done and rng.random() < 0.1:
+            # `from M import *`: binds M's members and sub-modules
+            names = set(mods[tgt]) | {p.rsplit(".", 1)[1] for p in mods if p.startswith(tgt + ".")
+                                      and p.count(".") == tgt.count(".") + 1}
+            tops = {p.split(".")[0] for p in mods}
+            if not (names & singles or names & plains_first or names & tops or
+                    any(l.split(".")[0] in names for _, _, l in imports)):
+                star_done.append(tgt)
+                singles.update(names)
+                imports.append((tgt, "star", "*"))
+                continue
         if form == "plain":
             local = tgt
             if tgt.split(".")[0] in singles:
@@ -593,6 +665,8 @@ def gen_program(rng, mods, entries, nested_imports=False):
     def stmt_of(group):
         # group: list of imports sharing a statement
         t0, f0, l0 = group[0]
+        if f0 == "star":
+            return "from %s import *" % t0
         if f0 in ("plain", "plainas"):
             items = [t if f == "plain" else "%s as %s" % (t, l) for t, f, l in group]
             return "import " + ", ".join(items)
@@ -616,6 +690,8 @@ def gen_program(rng, mods, entries, nested_imports=False):
         g = [pool.pop()]
         t0, f0, _ = g[0]
         for other in list(pool):
+            if f0 == "star" or other[1] == "star":
+                continue
             if rng.random() < 0.4:
                 if f0 in ("plain", "plainas") and other[1] in ("plain", "plainas"):
                     g.append(other)
@@ -687,10 +763,16 @@ def gen_program(rng, mods, entries, nested_imports=False):
     for idx, (s, g) in enumerate(stmts):
         for tgt, form, local in g:
             for _ in range(rng.randint(0, 3) if len(imports) > 1 else rng.randint(1, 3)):
-                if idx < split_at and rng.random() < 0.5 and lines_mid:
-                    use(tgt, local, body1)
+                if form == "star":
+                    # a star-imported member is read by its bare name
+                    mem = rng.choice(mods[tgt])
+                    utgt, ulocal = tgt + "." + mem, mem
                 else:
-                    use(tgt, local, body2)
+                    utgt, ulocal = tgt, local
+                if idx < split_at and rng.random() < 0.5 and lines_mid:
+                    use(utgt, ulocal, body1)
+                else:
+                    use(utgt, ulocal, body2)
     # function-level imports (pyflyby treats them as plain text)
     if rng.random() < 0.04:
         for _ in range(rng.randint(1, 2)):
@@ -728,7 +810,13 @@ def gen_program(rng, mods, entries, nested_imports=False):
     return text
 
 
+CLI_DEFAULT_PARAMS = dict(align_imports=[32], from_spaces=3, separate_from_imports=False)
+
+
 def gen_params(rng):
+    if rng.random() < 0.2:
+        # what bin/transform-imports and bin/tidy-imports use when no formatting option is given
+        return dict(CLI_DEFAULT_PARAMS)
     p = {}
     for k, vs in PARAM_CHOICES.items():
         if rng.random() < 0.35:
@@ -737,7 +825,7 @@ def gen_params(rng):
 
 
 _ALL_POOLS = dict(TOPS=list(TOPS), SUBS=list(SUBS), MEMBERS=list(MEMBERS), NEWTOPS=list(NEWTOPS),
-                  NEWSUBS=list(NEWSUBS), ALIASES=list(ALIASES))
+                  NEWSUBS=list(NEWSUBS), ALIASES=list(ALIASES), LONGTOPS=list(LONGTOPS), LONGSUBS=list(LONGSUBS))
 
 
 def _set_pools(ascii_only):
